@@ -29,7 +29,10 @@ def fractional_amounts(ctx):
                 prev.add_segment(Segment(baseline_cpu_seconds=rng.randint(1, 4) / tps, cpu_scaling="const", memory_gb=0.25, storage_read_gb=0))
             pl.runtime_status()
             pipes.append(pl)
-        asg = [Assignment(list(pl.values), rng.choice([0.5, 1.5, 1.25, 2.75, 1]), rng.choice([2.5, 4.25, 8]), pl.priority, 0, pl.pipeline_id) for pl in pipes]
+        cpus_asked = [rng.choice([0.5, 1.5, 1.25, 2.75, 1]) for _ in pipes]
+        if sum(cpus_asked) > 8:          # three times 2.75 CPUs would oversell the 8-CPU pool: the executor rightly refuses such a batch (that case is run below)
+            cpus_asked[-1] = 1
+        asg = [Assignment(list(pl.values), c, rng.choice([2.5, 4.25, 8]), pl.priority, 0, pl.pipeline_id) for pl, c in zip(pipes, cpus_asked)]
         sus = []
         for t in range(40):
             ex.run_one_tick(sus, asg if t == 0 else [])
